@@ -9,6 +9,7 @@ import (
 	"sort"
 	"strconv"
 	"strings"
+	"time"
 
 	"github.com/parquet-go/parquet-go"
 
@@ -388,14 +389,30 @@ func c10ReadAll(rows parquet.Rows) ([]parquet.Row, error) {
 	}
 }
 
+// c10Hangs counts calls into the implementation that did not return; each
+// leaves a spinning goroutine behind, so the run stops early after a few.
+var c10Hangs int
+
+// c10Guard runs a call into the implementation, recovering a panic and
+// giving up on a call that does not return.
 func c10Guard(f func()) (msg string) {
-	defer func() {
-		if r := recover(); r != nil {
-			msg = fmt.Sprint(r)
-		}
+	done := make(chan string, 1)
+	go func() {
+		defer func() {
+			if r := recover(); r != nil {
+				done <- fmt.Sprint(r)
+			}
+		}()
+		f()
+		done <- ""
 	}()
-	f()
-	return ""
+	select {
+	case m := <-done:
+		return m
+	case <-time.After(10 * time.Second):
+		c10Hangs++
+		return "the call did not return within 10 s (endless loop)"
+	}
 }
 
 func c10Sign(x int) byte {
@@ -1031,7 +1048,7 @@ func c10Clone(cs *c10Case) *c10Case {
 func c10Shrink(c *core.Ctx, cs *c10Case) *c10Case {
 	budget := 600
 	fails := func(t *c10Case) bool {
-		if budget <= 0 || !c10Valid(t) {
+		if budget <= 0 || !c10Valid(t) || c10Hangs >= 4 {
 			return false
 		}
 		budget--
@@ -1482,6 +1499,9 @@ func runC10(c *core.Ctx) {
 			for _, desc := range []bool{false, true} {
 				for _, nf := range []bool{false, true} {
 					for _, runLen := range []int{1, 7, 8, 9, 20} {
+						if c10Hangs > 0 {
+							continue
+						}
 						g := c10NewGen(c, c10MasterCols)
 						g.maxRun, g.pNull = runLen, 50
 						cs := &c10Case{Kind: kind, Master: true, Cols: c10MasterCols, Sorting: []c10Sort{{Col: col, Desc: desc, NullsFirst: nf}}}
@@ -1501,7 +1521,7 @@ func runC10(c *core.Ctx) {
 
 	// ---- random histories
 	nRand := c.N(700, 9000)
-	for i := 0; i < nRand; i++ {
+	for i := 0; i < nRand && c10Hangs == 0; i++ {
 		cs := &c10Case{}
 		switch c.Rng.Intn(6) {
 		case 0, 1:
@@ -1533,7 +1553,7 @@ func runC10(c *core.Ctx) {
 
 	// ---- SortingWriter
 	nW := c.N(260, 3000)
-	for i := 0; i < nW; i++ {
+	for i := 0; i < nW && c10Hangs == 0; i++ {
 		cs := &c10Case{Kind: "writer", Master: true, Cols: c10MasterCols}
 		cs.Sorting = c10GenSorting(c, cs.Cols)
 		cs.SortRows = 1 + c.Rng.Intn(12)
@@ -1578,7 +1598,7 @@ func runC10(c *core.Ctx) {
 	rep.Steps = []c10Step{{Op: "write", Rows: [][]c10Cell{r1, r2}}}
 	c10Run(c, rep, "repeated-sorting-column")
 	nR := c.N(40, 400)
-	for i := 0; i < nR; i++ {
+	for i := 0; i < nR && c10Hangs == 0; i++ {
 		cs := &c10Case{Kind: "repeated", Master: true, Cols: c10MasterCols}
 		cs.Sorting = []c10Sort{{Col: 8, Desc: c.Rng.Intn(2) == 0, NullsFirst: c.Rng.Intn(2) == 0}}
 		if c.Rng.Intn(2) == 0 {
@@ -1589,6 +1609,9 @@ func runC10(c *core.Ctx) {
 		c10Run(c, cs, "repeated-sorting-column")
 	}
 
+	if c10Hangs > 0 {
+		c.Note("the run was cut short: %d calls into the implementation did not return", c10Hangs)
+	}
 	c.Vm(c10VmPrelude)
 	c.Vm("Definition cases : list case := [\n  " + strings.Join(vm, ";\n  ") + "].")
 	c.Vm("Definition mismatches := filter (fun c => negb (agrees c)) cases.")
